@@ -49,6 +49,7 @@ ACCEPTOR = {
                   ('U', 'RLRP', ()), ('FIN',)],
     'early-abort': [('P', [('RQ',), ('AB', [0, 0])])],
     'early-data': [('P', [('RQ',), ('MSG', 1, 0, [1])]), ('FIN',)],
+    'abort-close': [('P', [('RQ',)]), ('U', 'AC', ()), ('P', [('MSG', 1, 1, [1, 1]), ('AB', [2, 5])]), ('FIN',)],
     'release-data': [('P', [('RQ',)]), ('U', 'AC', ()), ('U', 'RLRQ', ()), ('P', [('MSG', 1, 1, [2]), ('RLRP',)])],
 }
 
@@ -61,6 +62,7 @@ REQUESTOR = {
     'local-abort': [('U', 'RQ', ()), ('P', [('AC',)]), ('U', 'AB', (0, 0)), ('FIN',)],
     'rejected': [('U', 'RQ', ()), ('P', [('RJ', [1, 1, 3])])],
     'collision': [('U', 'RQ', ()), ('P', [('AC',)]), ('U', 'RLRQ', ()), ('P', [('RLRQ',)]), ('U', 'RLRP', ()), ('P', [('RLRP',)])],
+    'response-close': [('U', 'RQ', ()), ('P', [('AC',)]), ('G', 1), ('P', [('MSG', 1, 0, [1]), ('MSG', 1, 0, [1]), ('AB', [0, 0])]), ('FIN',)],
     'find': [('U', 'RQ', ()), ('P', [('AC',)]), ('G', 2), ('P', [('MSG', 1, 1, [1, 1]), ('MSG', 1, 1, [2]), ('MSG', 1, 0, [1])]),
              ('U', 'RLRQ', ()), ('P', [('RLRP',)])],
 }
@@ -94,13 +96,15 @@ class Played(object):
     pass
 
 
-def play(script, req, cuts=(), dribble=False, waiting=False, fin_at=None, stop_silent=False, mutate=None,
+def play(script, req, cuts=(), dribble=False, waiting=False, fin_at=None, stop_silent=False, mutate=None, eager_fin=False,
          tick_after_fin=True, max_iter=4000):
     """Play a script.
     cuts: absolute offsets in the peer's byte stream at which a segment boundary falls (besides the
           natural one after each peer write); dribble: one byte per segment.
     waiting: the first peer write (acceptor) is already in the socket when the provider starts.
     fin_at: the peer disconnects after exactly this many bytes of its stream (and sends nothing more).
+    eager_fin: when a peer write is directly followed by the peer closing, the close is issued together
+          with the write (it becomes visible as soon as the last byte has arrived).
     mutate: (index of peer PDU, fn(frame, bytes) -> [(frame or None, bytes)]) replaces that PDU.
     Returns a Played with .run (Run), .outcome."""
     run = Run(req)
@@ -151,7 +155,7 @@ def play(script, req, cuts=(), dribble=False, waiting=False, fin_at=None, stop_s
         if not waiting or req:
             if not settle():
                 return out
-        for op in script:
+        for opi, op in enumerate(script):
             if out.fin_done:
                 break
             if op[0] == 'P':
@@ -183,6 +187,12 @@ def play(script, req, cuts=(), dribble=False, waiting=False, fin_at=None, stop_s
                     settle()
                     break
                 written += run.peer_send(frames)
+                if eager_fin and opi + 1 < len(script) and script[opi + 1][0] == 'FIN':
+                    run.peer_fin()
+                    out.fin_done = True
+                    deliver()
+                    settle()
+                    break
                 if first and waiting and not req:
                     first = False
                 if not deliver():
